@@ -41,10 +41,27 @@ def prime():
 
 def _install_raw_codec():
     import nmea2000.encoder as E
+    import nmea2000.pgns as P
     if getattr(E, "encode_pgn_130816_simRaw", None) is None:
         def encode_pgn_130816_simRaw(m):
             return bytes.fromhex(m.get_field_by_id("raw").value)
         E.encode_pgn_130816_simRaw = encode_pgn_130816_simRaw
+        P.encode_pgn_130816_simRaw = encode_pgn_130816_simRaw        # wherever the encoder looks its codecs up
+
+
+def seam_check():
+    """The injected raw codec must be reachable through the public encode path."""
+    from nmea2000.encoder import NMEA2000Encoder
+    from nmea2000.message import NMEA2000Message, NMEA2000Field
+    _install_raw_codec()
+    m = NMEA2000Message(PGN=130816, id="simRaw", source=1, destination=255, priority=3)
+    m.fields = [NMEA2000Field("raw", value="ff9f0102030405060708090a", raw_value=None)]
+    try:
+        NMEA2000Encoder().encode_ebyte(m)
+    except ValueError as e:
+        if "No encoding function" in str(e):
+            return "the encoder no longer finds per-PGN codecs by name in nmea2000.encoder / nmea2000.pgns (raw codec not reachable)"
+    return None
 
 
 def raw_payload(rng, L):
